@@ -26,14 +26,14 @@ Notation bufs := (list (list Smp)).
 Inductive node :=
 | NSum | NSumBuffers | NPass
 | NDelay (rings : list (fixed Smp))
-| NSignal (ch : nat) (frames : list (list Smp))
+| NSignal (ch : nat) (frames : list (list Smp)) (pulls : nat)   (* pulls: how often Signal::next ran *)
 | NGraph (ins : list bufs) (ids : list nat) (cbufs : bufs) (core : node).
 
 (* dasp_signal::from_iter over the remaining frames; EQUILIBRIUM once exhausted *)
-Definition sig_next (ch : nat) (st : list (list Smp)) : list Smp * list (list Smp) :=
-  match st with
-  | [] => (repeat zero ch, [])
-  | f :: t => (f, t)
+Definition sig_next (ch : nat) (st : list (list Smp) * nat) : list Smp * (list (list Smp) * nat) :=
+  match fst st with
+  | [] => (repeat zero ch, ([], S (snd st)))
+  | f :: t => (f, (t, S (snd st)))
   end.
 
 Definition star : Type := list bufs * bufs * node.
@@ -52,8 +52,9 @@ Fixpoint nprocess (nd : node) (inputs : list bufs) (output : bufs) {struct nd} :
   | NSumBuffers => let* o := sum_buffers_process zero add BLEN inputs output in Ok (NSumBuffers, o)
   | NPass => let* o := pass_process inputs output in Ok (NPass, o)
   | NDelay rings => let* p := delay_process rings inputs output in Ok (NDelay (fst p), snd p)
-  | NSignal ch frames =>
-    let* p := signal_process BLEN (sig_next ch) ch frames inputs output in Ok (NSignal ch (fst p), snd p)
+  | NSignal ch frames pulls =>
+    let* p := signal_process BLEN (sig_next ch) ch (frames, pulls) inputs output in
+    Ok (NSignal ch (fst (fst p)) (snd (fst p)), snd p)
   | NGraph ins ids cb core =>
     (* Processor::process on the star: the in-nodes have no inputs and leave their buffers
        alone, then the core is processed with the in-nodes' buffers as its inputs *)
@@ -65,14 +66,37 @@ Fixpoint nprocess (nd : node) (inputs : list bufs) (output : bufs) {struct nd} :
     Ok (NGraph ins2 ids cb2 core2, snd p)
   end.
 
+(* total number of Signal::next calls made so far by the signal nodes of the configuration *)
+Fixpoint pulls_of (nd : node) : nat :=
+  match nd with
+  | NSignal _ _ k => k
+  | NGraph _ _ _ core => pulls_of core
+  | _ => 0
+  end.
+
+(* what the owner of the graph does to the node's `buffers: Vec<Buffer>` before a call *)
+Inductive bop :=
+| BKeep
+| BResize (n : nat)     (* buffers.resize(n, Buffer::SILENT) *)
+| BTake.                (* mem::take for the duration of this call, put back afterwards *)
+
+Definition apply_bop (op : bop) (out : bufs) : bufs :=
+  match op with
+  | BKeep => out
+  | BResize n => firstn n out ++ repeat (repeat zero BLEN) (n - length out)
+  | BTake => []
+  end.
+
 Variable enc : Smp -> Z.
 
-Fixpoint run_calls (nd : node) (out : bufs) (calls : list (list bufs)) : list (list Z) :=
+Fixpoint run_calls (nd : node) (out : bufs) (calls : list (bop * list bufs)) : list (list Z) :=
   match calls with
   | [] => []
-  | inputs :: t =>
-    match nprocess nd inputs out with
-    | Ok (nd', out') => [9%Z; Z.of_nat (length out')] :: map (map enc) out' ++ run_calls nd' out' t
+  | (op, inputs) :: t =>
+    match nprocess nd inputs (apply_bop op out) with
+    | Ok (nd', out') =>
+      [9%Z; Z.of_nat (length out')] :: map (map enc) out'
+        ++ [7%Z; Z.of_nat (pulls_of nd')] :: run_calls nd' (match op with BTake => out | _ => out' end) t
     | Panic k => [[8%Z; Z.of_nat (panic_code k)]]
     | UB => [[(-2)%Z]]
     end
@@ -89,7 +113,11 @@ Inductive znode :=
 | ZGraph (ins : list (list Z)) (ids : list Z) (cfill : list Z) (core : znode).
   (* ins: per in-node, one fill value per buffer; cfill: the same for the core's buffers *)
 
-Inductive zcase := Case (nd : znode) (out0 : list (list Z)) (calls : list (list (list (list Z)))).
+(* a call: (buffer-op code, argument) and the inputs;  0 keep, 1 resize to arg, 2 take *)
+Inductive zcase := Case (nd : znode) (out0 : list (list Z)) (calls : list ((Z * Z) * list (list (list Z)))).
+
+Definition to_bop (c : Z * Z) : bop :=
+  match fst c with 1%Z => BResize (Z.to_nat (snd c)) | 2%Z => BTake | _ => BKeep end.
 
 Section Conv.
 Context {Smp : Type}.
@@ -101,7 +129,7 @@ Fixpoint to_node (z : znode) : node Smp :=
   match z with
   | ZSum => NSum | ZSumB => NSumBuffers | ZPass => NPass
   | ZDelay rings => NDelay (map (fun r => {| first := Z.to_nat (fst r); fdata := map dec (snd r) |}) rings)
-  | ZSig ch frames => NSignal (Z.to_nat ch) (map (map dec) frames)
+  | ZSig ch frames => NSignal (Z.to_nat ch) (map (map dec) frames) 0
   | ZGraph ins ids cfill core =>
     NGraph (map (map fill) ins) (map Z.to_nat ids) (map fill cfill) (to_node core)
   end.
@@ -118,9 +146,9 @@ Definition run_case (c : zcase) : list (list Z) :=
   let '(Case nd out0 calls) := c in
   if uses_float nd then
     run_calls F32.zero F32.add F32.bits (to_node F32.of_bits nd)
-      (map (map F32.of_bits) out0) (map (map (map (map F32.of_bits))) calls)
+      (map (map F32.of_bits) out0) (map (fun c => (to_bop (fst c), map (map (map F32.of_bits)) (snd c))) calls)
   else
-    run_calls 0%Z Z.add (fun z => z) (to_node (fun z => z) nd) out0 calls.
+    run_calls 0%Z Z.add (fun z => z) (to_node (fun z => z) nd) out0 (map (fun c => (to_bop (fst c), snd c)) calls).
 
 Definition zll_eqb (a b : list (list Z)) : bool :=
   if list_eq_dec (list_eq_dec Z.eq_dec) a b then true else false.
